@@ -67,6 +67,7 @@ def run_cli(binpath, src, mode, debug, check, stdin_bytes):
 
 class PROP(PropCheck):
     id = "C12"
+    mismatch_is_failure = False
     theorems = ["C12_exit0_iff_completed", "C12_check_is_pure", "C12_debug_mode_irrelevant_for_stdout", "C12_front_end_error",
                 "C12_mode_equivalence", "C12_deterministic"]
     coq_imports = ["Obs"]
